@@ -60,6 +60,9 @@ func genCase(t *rapid.T) Case {
 	if signer.Key == 1 {
 		env.AltKey = gen.Keys()[2]
 	}
+	if signer.Key >= 0 {
+		env.SignerKey = signer.Priv()
+	}
 	// somebody else's valid signature with encapsulated content (for the two-signer splice)
 	if rapid.IntRange(0, 3).Draw(t, "withforeign") == 0 {
 		if f, err := seeds.Emulate(other, gen.SizedBytes(40, 1, 32).Draw(t, "foreigncontent"), seeds.EmulOpts{Attached: true, Sorted: true, CMS: rapid.Bool().Draw(t, "foreigncms")}); err == nil {
